@@ -237,6 +237,27 @@ def rule_lzma2_end(facts):
                 r.bad("lzma2|after-end", "after control byte 0 the decoder still reads input (%s)" % bad[0], pat.where(b, bb))
             else:
                 r.ok("path", {"status == 0": "leaves the loop; no read until return"})
+    if not found:
+        # any other spelling of the dispatch (`match status { 0 => break, .. }`): walk the loop body under status = 0 and look at
+        # what is reachable until the function returns
+        from engine.flow import PosTerms
+        ptb = PosTerms(b)
+        reads = [blk.idx for blk in b.calls() if (flow.declared(blk.term) or "").endswith("read_u8") and c.loop_blocks_of(blk.idx)]
+        if len(reads) == 1:
+            heads = {h for h, blocks, _ in c.loops() if reads[0] in blocks}
+            lf = lambda q: 0 if (pat.has_call(q, "read_u8") and q[0] in ("ok", "okp", "try", "call", "cast")) else (_ for _ in ()).throw(pat.NotEvaluable(q))
+            readers = {blk.idx for blk in b.calls() if blk.idx != reads[0] and
+                       ((flow.declared(blk.term) or "") in EXACT or (flow.declared(blk.term) or "") in VARIABLE or (flow.declared(blk.term) or "") in PEEK or
+                        (flow.callee(blk.term) or "").endswith(("parse_lzma", "parse_uncompressed")))}
+            got = pat.reached_under(b, ptb, b.blocks[reads[0]].term.target, lf, readers | set(c.returns) | heads)
+            found = True
+            r.sites += 1
+            if got & heads:
+                r.bad("lzma2|after-end", "after control byte 0 the decoder goes round the chunk loop again", pat.where(b, reads[0]))
+            elif got & readers:
+                r.bad("lzma2|after-end", "after control byte 0 the decoder still reads input", pat.where(b, reads[0]))
+            else:
+                r.ok("path", {"status == 0": "leaves the loop; no read until return (walk under status = 0)"})
     r.need("end-of-stream control byte test", found)
     return r
 
